@@ -67,7 +67,7 @@ def run_case(ctx, rep, spec, field, dtype, limit, order_id, model, path=None, tr
 
 
 def run(ctx, rep, model=True):
-    n = 8 if ctx.quick else 50
+    n = 16 if ctx.quick else 60
     orders = pools.all_orders()
     for i in range(n):
         # three-level meshes with exposed coarse cells in boxes longer than two cells matter: replication by 4
